@@ -227,14 +227,18 @@ def tlc(ctx, module, cfg, workers=8, dump=None, env=None, timeout=3000, coverage
         cmd += ["-dump", "dot,actionlabels", dump]
     if simulate:
         cmd += ["-simulate", simulate]
+    cwd = SPEC
+    if os.path.isabs(module):
+        cwd = os.path.dirname(module)
+        module = os.path.splitext(os.path.basename(module))[0]
     cmd += ["-config", cfg, module + ".tla"]
-    e = {"TLC_HEAP": heap}
+    e = {"TLC_HEAP": heap, "TLA_LIB": SPEC}
     if deque:
         e["TLC_DEQUE"] = "1"
     if env:
         e.update(env)
     t = time.time()
-    r = run(cmd, cwd=SPEC, env=e, timeout=timeout, check=False)
+    r = run(cmd, cwd=cwd, env=e, timeout=timeout, check=False)
     res = TlcResult()
     res.wall = time.time() - t
     res.out = r.stdout or ""
